@@ -24,8 +24,9 @@ func init() {
 			"the reference builder is validated by agreeing with the library on insert-only histories and by the C14 golden vectors",
 			"a C01 model divergence aborts the case here (judged by C01)",
 		},
-		MinObs: map[string]int64{"roots_compared": 500, "roots_after_delete": 100, "roots_height_ge2": 20, "roots_empty": 5},
-		Run:    runC04,
+		MinObs:  map[string]int64{"roots_compared": 500, "roots_after_delete": 100, "roots_height_ge2": 20, "roots_empty": 5},
+		Run:     runC04,
+		EvalObs: []string{"roots_compared"},
 	})
 }
 
